@@ -81,6 +81,8 @@ C20StepChecks(k, e, s, t) ==
   \cup
   (IF k = "Tx" /\ e.ok /\ e.name \in OwnerOnlyMsgs THEN
      { Chk("C20", "C20.step.only_the_owner_updates_or_cancels", TRUE,
+           \A x \in gone \cup altered : Ord(s, x).owner = e.sender, Bad(gone \cup altered)),
+       Chk("C17", "C17.step.order_message_alters_only_the_senders_orders", TRUE,
            \A x \in gone \cup altered : Ord(s, x).owner = e.sender, Bad(gone \cup altered)) }
    ELSE {})
   \cup
